@@ -285,7 +285,17 @@ def run_kani(pkg, harnesses, unwind_note=None, timeout=1800):
         cmd += ["--harness", h]
     t0 = time.time()
     try:
-        r = subprocess.run(cmd, cwd=REPO, env=env, capture_output=True, text=True, timeout=timeout)
+        # own process group: on a time-out the cbmc grandchildren are killed too (they outlive `cargo kani` otherwise)
+        pr = subprocess.Popen(cmd, cwd=REPO, env=env, stdout=subprocess.PIPE, stderr=subprocess.PIPE, text=True, start_new_session=True)
+        try:
+            so, se = pr.communicate(timeout=timeout)
+        except subprocess.TimeoutExpired:
+            import signal
+            try: os.killpg(pr.pid, signal.SIGKILL)
+            except Exception: pass
+            pr.communicate()
+            raise
+        r = subprocess.CompletedProcess(cmd, pr.returncode, so, se)
         out = r.stdout + "\n" + r.stderr
     except subprocess.TimeoutExpired as e:
         return {"status": "undecided", "reason": f"kani timeout after {timeout}s", "out": "", "cmd": " ".join(cmd), "wall": time.time() - t0, "per": []}
@@ -548,7 +558,9 @@ def main():
     for kc in cfg.get("kani", []):
         if kc.get("tier") == "thorough" and tier != "thorough":
             continue
-        kr = run_kani(kc["pkg"], kc["harnesses"], timeout=kc.get("timeout", 1800))
+        # quick tier: a change that makes CBMC blow up (seed C15-b: tendermint Height::try_from in EdsId::decode, > 30 min) is left
+        # undecided after 15 min and decided by the native enumerator below; the unchanged tree needs < 3 min warm
+        kr = run_kani(kc["pkg"], kc["harnesses"], timeout=kc.get("timeout", 1800 if tier == "thorough" else 900))
         kani_results.append((kc, kr))
         cmds.append(kr["cmd"])
         if kr["status"] == "undecided":
